@@ -65,6 +65,7 @@ def run_workload(result, cfg, script, tier, seed, parts=8, timeout=3600, extra_a
     pybuild.py_build(cfg)        # build (or refresh) once, before the worker threads start
     lock = threading.Lock()
     summaries = []
+    rtfail = {}
     t0 = time.time()
     # more parts than cores balances the load (the cost per class is very uneven); at most NCPU children run at a time
     sem = threading.BoundedSemaphore(max(1, int(os.environ.get("VERIF_PYPAR", os.cpu_count() or 16))))
@@ -98,7 +99,19 @@ def run_workload(result, cfg, script, tier, seed, parts=8, timeout=3600, extra_a
                         result["violations"].append(dict(key="crash:%s:%s:exit%d_after_summary" % (cfg, label, r["rc"]), sub=label, idx=-1, count=1,
                                                          config=cfg, monitor=None, detail=dict(stderr_tail=r["stderr"][-3000:], cmd=" ".join(r["cmd"]))))
                     return
-                # no summary: the child died.  Attribute to the last announced scenario.
+                # no summary: the child died.
+                # A failure of the sanitizer RUNTIME itself (it could not map its shadow / allocator memory: ENOMEM on a loaded
+                # machine) says nothing about the code under test: re-run the same part once, then inconclusive.
+                if re.search(r"(ThreadSanitizer|AddressSanitizer|LeakSanitizer|Sanitizer)[^\n]{0,40}(failed to allocate|out of memory|failed to mmap|"
+                             r"ReserveShadowMemoryRange failed|unexpected memory mapping)", r["stderr"], re.I) and "runtime error" not in r["stderr"]:
+                    rtfail[k] = rtfail.get(k, 0) + 1
+                    if rtfail[k] <= 1:
+                        result["extra"].setdefault("sanitizer_runtime_failures_retried", []).append("%s[%s] part %d" % (label, cfg, k))
+                        continue
+                    result["inconclusive"].append("%s[%s] part %d: the sanitizer runtime failed twice (resource exhaustion): %s" % (
+                        label, cfg, k, r["stderr"][-300:]))
+                    return
+                # Attribute to the last announced scenario.
                 kind = _san_kind(r["stderr"]) or ("signal%d" % -r["rc"] if r["rc"] < 0 else "exit%d" % r["rc"])
                 for v in viols:   # violations reported before the crash are still valid
                     result["violations"].append(dict(key=v["key"], sub=label, idx=-1, count=1, config=cfg, monitor=None,
